@@ -1116,7 +1116,11 @@ func CopyForm(orig Form) Form {
 			for i := 0; i < len(p.parameters); i++ {
 				copiedParameters[i] = *p.parameters[i].Copy()
 			}
-			return NewCall(p.functionName, copiedParameters)
+			call := NewCall(p.functionName, copiedParameters)
+			if p.ProviderType != nil {
+				call.ProviderType = types.CopyType(p.ProviderType)
+			}
+			return call
 		}
 	case *WaitForm:
 		p, ok := orig.(*WaitForm)
